@@ -108,6 +108,16 @@ class Contract:
         return bool(self.of("pure")) or not self.of("modifies")
 
 
+class OpaqueValue:
+    """A value the function only passes around (any use other than storing / passing it is outside the contract)."""
+
+    def __init__(self, name: str):
+        self.name = name
+
+    def __repr__(self) -> str:
+        return f"<opaque {self.name}>"
+
+
 class AstFunc:
     """A function known only by its AST (sly grammar actions share one name: located by production string)."""
 
@@ -313,6 +323,8 @@ class Registry:
             if typ.hi is not None:
                 p.assume(b.n <= typ.hi)
             return SByteArray(b) if typ.mutable else b
+        if isinstance(typ, api.Opaque):
+            return OpaqueValue(name)
         if isinstance(typ, api.Const):
             return typ.value
         if isinstance(typ, api.OneOf):
